@@ -124,7 +124,7 @@ def parseStruct (toks : List String) : Option (Struct × List String) :=
 
 open JsonV.Model.Scope in
 /-- `at`: the struct a callee sees after a path of `J <marshal> <g> <n> <options>` (call entry), `m <string> <format>`
-(struct member), `c <t|s|f>` (clear), `u` (user call). -/
+(struct member), `c <t|s|f>` (clear), `u` (user call), `Z <marshal> <g> <n> <options>` (pooled entry point). -/
 def walk : Nat → Struct → List String → Option Struct
   | 0, _, _ => none
   | _, s, [] => some s
@@ -134,6 +134,12 @@ def walk : Nat → Struct → List String → Option Struct
       | some (os, r1) =>
         let o := callOpts (g == "1") os
         walk fuel (if o.isEmpty then s else if mar == "1" then enterMarshal o s else enterUnmarshal o s) r1
+      | none => none
+    | none => none
+  | fuel+1, _, "Z" :: mar :: g :: n :: r =>   -- json.Marshal / json.Unmarshal: pooled coder reset with the call options
+    match n.toNat? with
+    | some n => match parseOpts (r.length + 2) r n with
+      | some (os, r1) => walk fuel (enterPooled (g == "1") (mar == "1") os) r1
       | none => none
     | none => none
   | fuel+1, s, "m" :: str :: fmt :: r =>
